@@ -85,6 +85,17 @@ Proof. exact (event_delivered ob_flush_checks_straddle ob_flush_checks_contains 
                ob_sse_has_lflf ob_sse_has_crcr ob_sse_has_crlf ob_sse_patterns_nonzero). Qed.
 Print Assumptions T02_event_delivered.
 
+(* The general form: line ends may be mixed within one stream.  Whatever two ends of line
+   (each LF, CR or CRLF) form the empty line after an event, the write that contains its last
+   byte flushes — after any earlier writes, as soon as one non-empty write precedes. *)
+Theorem T02_blank_line_delivered : forall ws0 x ws1 w ws2 e1 e2 a c,
+  In e1 eols -> In e2 eols -> x <> [] -> Forall (fun y => y <> []) ws1 ->
+  concat (x :: ws1) ++ w = a ++ (e1 ++ e2) ++ c -> (length c < length w)%nat ->
+  nth_error (flush_flags sse_flush_patterns (ws0 ++ (x :: ws1) ++ w :: ws2)) (length ws0 + length (x :: ws1)) = Some true.
+Proof. exact (blank_line_delivered ob_flush_checks_straddle ob_flush_checks_contains sse_flush_patterns
+               ob_sse_has_lflf ob_sse_has_crcr ob_sse_has_lfcr ob_sse_has_crlf ob_sse_patterns_nonzero). Qed.
+Print Assumptions T02_blank_line_delivered.
+
 (* ... tied to the write sequence of (modelled) Response.Write: after the head — whatever its
    writes, empty ones included — and the earlier reads of an unchunked event stream body, the
    write of the read that completes an event flushes. *)
